@@ -41,19 +41,20 @@ type hOp struct {
 }
 
 type hScenario struct {
-	NumVb      int        `json:"numvb"`
-	Lo         int        `json:"lo"`
-	Hi         int        `json:"hi"`
-	Ops        []hOp      `json:"ops"`
-	Finite     bool       `json:"finite,omitempty"`
-	Reset      string     `json:"reset,omitempty"`        // checkpoint.autoReset
-	SkipAt     int        `json:"skip_at,omitempty"`      // >0: dcp.listener.skipUntil = event time of seqno SkipAt (earlier document events are dropped)
-	MetaBucket string     `json:"meta_bucket,omitempty"`  // metadata.config.bucket (couchbase metadata placed in another bucket)
-	EndOnClose bool       `json:"end_on_close,omitempty"` // the server confirms every CloseStream with STREAM_END(closed), as a real node does
-	CancelEnd  string     `json:"cancel_end,omitempty"`   // C12: the history ends with a shutdown by cancel during which the server ends one stream with this transient cause
-	Pre        [][]string `json:"pre,omitempty"`          // per assigned vBucket (index): kinds of the events the server already holds when the first session opens
-	KeepF1     bool       `json:"keep_f1,omitempty"`      // do not exclude the known finding F1 by construction (units whose oracle is not C01's)
-	File       bool       `json:"file,omitempty"`         // real file metadata backend (whole-state writes) instead of the per-vBucket fake
+	NumVb       int        `json:"numvb"`
+	Lo          int        `json:"lo"`
+	Hi          int        `json:"hi"`
+	Ops         []hOp      `json:"ops"`
+	Finite      bool       `json:"finite,omitempty"`
+	Reset       string     `json:"reset,omitempty"`        // checkpoint.autoReset
+	SkipAt      int        `json:"skip_at,omitempty"`      // >0: dcp.listener.skipUntil = event time of seqno SkipAt (earlier document events are dropped)
+	MetaBucket  string     `json:"meta_bucket,omitempty"`  // metadata.config.bucket (couchbase metadata placed in another bucket)
+	EndOnClose  bool       `json:"end_on_close,omitempty"` // the server confirms every CloseStream with STREAM_END(closed), as a real node does
+	CancelEnd   string     `json:"cancel_end,omitempty"`   // C12: the history ends with a shutdown by cancel during which the server ends one stream with this transient cause
+	PreFailover int        `json:"pre_failover,omitempty"` // every vBucket failed over this many times before the first session (older branches in its failover log)
+	Pre         [][]string `json:"pre,omitempty"`          // per assigned vBucket (index): kinds of the events the server already holds when the first session opens
+	KeepF1      bool       `json:"keep_f1,omitempty"`      // do not exclude the known finding F1 by construction (units whose oracle is not C01's)
+	File        bool       `json:"file,omitempty"`         // real file metadata backend (whole-state writes) instead of the per-vBucket fake
 }
 
 // ---------- server model (survives restarts) ----------
@@ -220,6 +221,13 @@ func newSession(sc *hScenario, oracles ...string) *session {
 			}
 		}
 	}
+	for v := 0; v < sc.NumVb && sc.PreFailover > 0; v++ {
+		var fl []gocbcore.FailoverEntry
+		for j := sc.PreFailover; j >= 0; j-- { // newest first; the oldest branch starts at 0
+			fl = append(fl, gocbcore.FailoverEntry{VbUUID: gocbcore.VbUUID(0xe0000000 + uint64(j)<<16 + uint64(v)), SeqNo: 0})
+		}
+		s.cl.failover[uint16(v)] = fl
+	}
 	s.lo, s.hi = sc.Lo, sc.Hi
 	s.meta.onWrite = s.onDurableWrite
 	if sc.File {
@@ -317,6 +325,13 @@ func (s *session) buildModel(nOpens int) {
 		m.tuples[m.resume] = true
 		m.uuid = o.UUID
 		s.checkResumeUntorn(m)
+		if m.resume.Seq != 0 && m.resume.UUID != o.UUID {
+			if _, stored := s.meta.snapshot()[o.Vb]; !stored && s.metaI == nil {
+				// no stored checkpoint, start at the current high seqno (auto-reset latest): that position lies on the branch
+				// the vBucket is on now
+				s.fail("C06", "vb %d: first request from seq %d (current high seqno, no stored checkpoint) carries vbUUID %x, the vBucket's current history branch is %x: a mixture of two branches", o.Vb, m.resume.Seq, m.resume.UUID, o.UUID)
+			}
+		}
 		if s.metaI != nil {
 			if want := s.saved[o.Vb]; m.resume != want && !s.torn {
 				s.fail("C02", "vb %d: session opened at %+v, the checkpoint last persisted through the file backend is %+v", o.Vb, m.resume, want)
